@@ -66,7 +66,8 @@ def run(chk):
     chk.cov['trials_and_failures_by_overhead'] = {str(h): v for h, v in tot.items()}
     chk.cov['rates_percent'] = {str(h): (100.0 * v[1] / v[0] if v[0] else None) for h, v in tot.items()}
     chk.cov['rule'] = ('uniformly random (K+h)-subsets, h in 0..2, K in %s; three mixes per (K,h): uniform over all 2^24 ESIs, '
-                       'random number of source symbols + random repair, repair only; evaluations = decodes by the real '
+                       'random number of source symbols + random repair, repair only; every other set is delivered one packet at a time in random '
+                       'order (failed = no answer after the last packet), the others in one batch; evaluations = decodes by the real '
                        'decoder; distinct_nontrivial = failing ESI sets, each certified rank deficient by TLC (exact rank over '
                        'GF(256) of the RFC matrix); rates checked by the TLC postcondition: <1%%, <0.01%%, <0.001%%' % ks)
     for e in stats:
